@@ -4,13 +4,13 @@ def main(tier, args):
     t0 = time.time()
     exe = vf.build("C04/signals", [vf.VERIF + "/checks/C04/harness.cpp"], vf.module_sources("event", exclude=("event/common_loop_signal.cpp",)), mode="asan",
                    plain_srcs=[vf.VERIF + "/engine/sched/log_stub.cpp"])
-    depth, dl = (5, 80) if tier == "quick" else (8, 1200)
+    depth, dl = (6, 80) if tier == "quick" else (8, 1200)
     res = vf.Result(); log = open(vf.BUILD + "/C04/log.txt", "w")
     jobs = [("%s:sentinel%d" % (e, s), [exe, e, str(depth), str(s)]) for e in ("epoll", "select") for s in (0, 1, 2)]
     if args.only: jobs = [j for j in jobs if j[0] == args.only]
     vf.run_procs(res, jobs, env={"VERIF_DEADLINE_S": str(dl), "VERIF_WORKERS": "3"}, log=log)
     vf.finish(PID, tier, res, t0,
-              rule="BFS (depth %d, canonical-state dedup) over all histories of enable/disable/destroy on 4 real SignalEvents (single signal, two-signal set, one-shot) spread over two loops on two threads driven in lock-step, "
+              rule="BFS (depth %d, canonical-state dedup) over all histories of enable/disable/destroy on 5 real SignalEvents (single signal, two-signal set, one-shot on one signal, one-shot on a two-signal set) spread over two loops on two threads driven in lock-step, "
                    "interleaved with raise(SIGUSR1|SIGUSR2) + one pass of every loop; pre-installed disposition in {SIG_IGN, plain handler with mask+flags, SA_SIGINFO handler}; fork per evaluation; "
                    "oracle: exactly one callback per enabled subscriber on its loop's thread, none for others, old handler invoked once, one-shot at most once, sigaction() equals the pre-subscription disposition whenever a signal has no subscriber" % depth,
               assumptions=["signals are raised one at a time while no subscription change is in progress (as stated in the property)", "disposition compared as handler + sa_mask + (sa_flags & ~SA_RESTORER) (glibc always adds SA_RESTORER)"])
